@@ -5,6 +5,7 @@ import (
 	"fmt"
 	"sort"
 	"strings"
+	"sync"
 	"time"
 
 	"github.com/els0r/goProbe/v4/pkg/capture/capturetypes"
@@ -48,13 +49,16 @@ func c30(r *sim.R) *sim.Violation {
 	nQ := 1 + t.Draw(3)
 	sc := sim.NewSched(r)
 	names := map[int64]string{}
+	var namesMu sync.Mutex
 	wd.fs.Yield = func(op *simfs.Op) {
 		id := sim.GoID()
+		namesMu.Lock() // reader workers and the writer reach operations concurrently
 		n, ok := names[id]
 		if !ok {
 			n = op.Proc.Name + ":" + string(op.Kind) + " " + op.Path
 			names[id] = n
 		}
+		namesMu.Unlock()
 		sc.Yield(n, string(op.Kind)+" "+op.Path)
 	}
 	defer func() { wd.fs.Yield = nil }()
